@@ -23,7 +23,7 @@ from ..divisions import dd, mutate, parts_collection, patched_attr
 from ..frameobs import CallTimeout, partitions_of, time_limit
 from ..frames import is_shim_error, split_rows
 from ..par import pmap
-from ..rowids import ABSENT, NA, SCALE, cell, make_divs, split, strategy_of, truthful, unlabel
+from ..rowids import ABSENT, NA, NO_PRE, SCALE, apply_pre, cell, make_divs, pre_relation, split, strategy_of, truthful, unlabel
 
 META = {
     "title": "Joins and concatenation equal pandas",
@@ -34,11 +34,14 @@ META = {
                  "decided by TLC",
     "level_text": "Small-scope: TLC enumerates every pair of key sequences over {0,1,2,NA} (quick: all pairs with <= 4 rows in total, "
                   "a salted 1/Mod hash sample up to 4+4 rows, every pair of sorted sequences for index joins; thorough: up to 5+5 rows) "
-                  "for the modes column-column, index-index, index-column, column-index, with the expected rows of inner / left / right / "
+                  "for the modes column-column, column PAIR (two key columns), index-index, index-column, column-index, with the expected rows of inner / left / right / "
                   "outer / leftsemi, plus concat (axis 0: 2-3 frames, differing column sets, join outer/inner; axis 1), merge_asof "
                   "(direction, allow_exact_matches, tolerance, by) and ALL row partitionings with <= 3 parts incl. empty ones. A seeded "
                   "sample of (case, join type) is crossed with partitionings, known/unknown divisions, broadcast in {None, True, False}, "
-                  "shuffle_method in {None, tasks, disk}, npartitions, suffixes, indicator, merge/join spelling and replayed on dask; "
+                  "shuffle_method in {None, tasks, disk}, npartitions, suffixes, indicator, merge/join spelling and replayed on dask; a family of "
+                  "column joins runs on PRE-PARTITIONED operands (each operand fresh, or sent through shuffle(on=K') / an earlier hash join on K' / "
+                  "groupby(K').first(split_out) / set_index first, K' equal to, a proper subset or superset of, overlapping or disjoint from the "
+                  "join keys, equal and unequal partition counts), where the expected rows are those of the fresh operands; "
                   "judged: row multiset incl. indicator / key / value cells, row order where promised (index-aligned joins of sorted "
                   "operands with known divisions, concat axis 0 without interleaving, merge_asof), declared npartitions/divisions vs "
                   "computed partitions, truthful known divisions, compute() = concatenation of the partitions.",
@@ -46,7 +49,7 @@ META = {
                   "for every recorded random case; a disagreement is a machinery error), harness.divisions.parts_collection (from_delayed) "
                   "to build operands, the cell projection, the inert pyarrow shim, pandas per-partition kernels. The dask side is a seeded "
                   "sample of the enumerated space, not exhaustive. HashJoinP2P needs `distributed` (absent): the tasks / disk / broadcast / "
-                  "partition-wise lowerings are what run. Multi-column keys, categorical / string keys and merges of more than two frames "
+                  "partition-wise lowerings are what run. Keys of more than two columns, categorical / string keys and merges of more than two frames "
                   "(JoinRecursive) are outside the check; index-with-column joins are judged on rids and value cells only.",
 }
 
@@ -54,7 +57,9 @@ CLAUSES = ["BadCase", "Raised", "Rows", "Order", "Meta", "Truthful", "WholeOK", 
 SUFFIXES = [["_x", "_y"], ["_l", "_r"], ["", "_r"], ["_l", ""]]
 MERGE_CODE = {"both": 0, "left_only": 1, "right_only": 2}
 HOWS = {"cc": ["inner", "left", "right", "outer", "leftsemi"], "ic": ["inner", "left", "right", "outer", "leftsemi"],
-        "ii": ["inner", "left", "right", "outer"], "ci": ["inner", "left", "right", "outer"]}
+        "ii": ["inner", "left", "right", "outer"], "ci": ["inner", "left", "right", "outer"],
+        "kk": ["inner", "left", "right", "outer", "leftsemi"]}
+KEYCOLS = {"cc": ["k"], "kk": ["k", "k2"]}
 
 
 # ----------------------------------------------------------------------------- building operands
@@ -78,6 +83,8 @@ def merge_frames(case, naming):
         data = {}
         if not on_index:
             data[keyname] = _keycol([r["k"] for r in rows])
+        if mode in ("cc", "kk"):         # the second key column (joined on in mode "kk", a bystander otherwise)
+            data[keyname + "2"] = np.array([r.get("k2", 0) for r in rows], dtype="i8")
         data["lrid" if s == "L" else "rrid"] = np.array(rid, dtype="i8")
         data["v"] = np.array([(10 if s == "L" else 20) + x for x in rid], dtype="i8")
         if "b" in (rows[0] if rows else {}):
@@ -89,6 +96,8 @@ def merge_frames(case, naming):
 
 
 def merge_kwargs(mode, naming):
+    if mode == "kk":
+        return {"on": ["k", "k2"]} if naming == "on" else {"left_on": ["k", "k2"], "right_on": ["kr", "kr2"]}
     if mode == "cc":
         return {"on": "k"} if naming == "on" else {"left_on": "k", "right_on": "kr"}
     if mode == "ii":
@@ -144,9 +153,14 @@ def project_merge(pdf, mode, how, naming, sfx, ind):
     kl = [unlabel(c) for c in _col(pdf, "k", ABSENT)] if naming == "lr" else [ABSENT] * n
     kr = [unlabel(c) for c in _col(pdf, "kr", NA if how == "leftsemi" else ABSENT)] if naming == "lr" else [ABSENT] * n
     if naming == "on":
-        kc = [unlabel(c) for c in (_col(pdf, "k", ABSENT) if mode == "cc" else idx)]
+        kc = [unlabel(c) for c in (_col(pdf, "k", ABSENT) if mode in ("cc", "kk") else idx)]
     else:
         kc = [ABSENT] * n
+    if mode == "kk":                     # the key is the pair <<k, k2>>
+        pair = lambda ks, name, dflt: [[a, b] for a, b in zip(ks, _col(pdf, name, dflt))]      # noqa: E731
+        kl = pair(kl, "k2", ABSENT) if naming == "lr" else [[ABSENT, ABSENT]] * n
+        kr = pair(kr, "kr2", NA if how == "leftsemi" else ABSENT) if naming == "lr" else [[ABSENT, ABSENT]] * n
+        kc = pair(kc, "k2", ABSENT) if naming == "on" else [[ABSENT, ABSENT]] * n
     if how == "leftsemi":
         vx = _col(pdf, "v", ABSENT)
         vy = _col(pdf, "v" + sfx[1], NA) if sfx[1] else [NA] * n
@@ -223,9 +237,16 @@ def run_merge(case, how, cfg):
     sfx, mode, naming = cfg["sfx"], case["mode"], cfg["naming"]
     L, R = merge_frames(case, naming)
 
+    lpre, rpre = case.get("lpre") or NO_PRE, case.get("rpre") or NO_PRE
+    pre = lpre["how"] != "none" or rpre["how"] != "none"
+
     def go(note):
         dl = source(L, cfg["llay"], cfg["ldivs"], ("L", case, cfg))
         dr = source(R, cfg["rlay"], cfg["rdivs"], ("R", case, cfg))
+        if pre:
+            rk = "kr" if naming == "lr" else "k"
+            dl = apply_pre(dl, L, lpre, {"k": "k", "k2": "k2", "v": "v", "rid": "lrid"}, cfg.get("lpren"), cfg.get("premethod"), "wl")
+            dr = apply_pre(dr, R, rpre, {"k": rk, "k2": rk + "2", "v": "v", "rid": "rrid"}, cfg.get("rpren"), cfg.get("premethod"), "wr")
         if cfg["api"] == "join":
             y = dl.join(dr, on="k" if mode == "ci" else None, how=how, lsuffix=sfx[0], rsuffix=sfx[1],
                         shuffle_method=cfg["method"], npartitions=cfg["npart"])
@@ -234,7 +255,7 @@ def run_merge(case, how, cfg):
                          npartitions=cfg["npart"], broadcast=cfg["broadcast"], **merge_kwargs(mode, naming))
         strat = strategy_of(y)
         note(strat)
-        return observe_coll(y, lambda p: project_merge(p, mode, how, naming, sfx, cfg["ind"]), cfg["whole"], ordered=strat in ("aligned", "blockwise"))
+        return observe_coll(y, lambda p: project_merge(p, mode, how, naming, sfx, cfg["ind"]), cfg["whole"], ordered=strat in ("aligned", "blockwise") and not pre)
 
     return guarded(go)
 
@@ -247,8 +268,12 @@ def pandas_merge(case, how, cfg):
         warnings.simplefilter("ignore")
         if how == "leftsemi":
             # pandas has no semi join: rows of the left frame whose key occurs on the right (isin matches NaN with NaN)
-            lkeys = L.index if kw.get("left_index") else L[kw.get("left_on") or kw["on"]]
-            out = L[np.asarray(lkeys.isin(R[kw.get("right_on") or kw["on"]]))]
+            if mode == "kk":
+                rkeys = set(map(tuple, R[kw.get("right_on") or kw["on"]].astype("f8").fillna(-1.0).values.tolist()))
+                out = L[[tuple(t) in rkeys for t in L[kw.get("left_on") or kw["on"]].astype("f8").fillna(-1.0).values.tolist()]]
+            else:
+                lkeys = L.index if kw.get("left_index") else L[kw.get("left_on") or kw["on"]]
+                out = L[np.asarray(lkeys.isin(R[kw.get("right_on") or kw["on"]]))]
         else:
             out = L.merge(R, how=how, suffixes=tuple(sfx), indicator=cfg["ind"], **kw)
     return project_merge(out, mode, how, naming, sfx, cfg["ind"])
@@ -307,8 +332,12 @@ def run_asof(case, cfg):
 
 
 # ----------------------------------------------------------------------------- judging (mirrors Joins!MergeBad etc.)
+def _h(x):
+    return tuple(x) if isinstance(x, list) else x
+
+
 def jt(t, mask, ind):
-    return tuple(t[q] if mask[q] and (q != 2 or ind) else 0 for q in range(8))
+    return tuple(_h(t[q]) if mask[q] and (q != 2 or ind) else 0 for q in range(8))
 
 
 def interleaves(fdivs, interleave):
@@ -404,6 +433,24 @@ def merge_config(rng, layouts, case, how, exp_mask):
             "whole": rng.random() < 0.34}
 
 
+def pre_merge_config(rng, layouts, case, how, exp_mask):
+    """Pre-partitioned operands: a hash join proper (no broadcast, no single partition), both operands in 2-3 partitions, the
+    pre-stages re-partitioning to equal counts (where a skipped shuffle would go unnoticed by the partition-count test) or
+    to unequal ones."""
+    cfg = merge_config(rng, layouts, case, how, exp_mask)
+    multi = lambda rows: list(rng.choice([x for x in layouts[len(rows)] if len(x) >= 2]))      # noqa: E731
+    cfg.update(api="merge", broadcast=rng.choice([None, False, False]), npart=rng.choice([None, None, None, 3]), ldivs=None, rdivs=None,
+               llay=multi(case["L"]), rlay=multi(case["R"]), premethod=rng.choice([None, "tasks", "disk"]))
+    equal = rng.random() < 0.7
+    n = rng.choice([2, 3, 3])
+    cfg["lpren"] = n
+    cfg["rpren"] = n if equal else rng.choice([x for x in (2, 3, 4) if x != n])
+    if equal and rng.random() < 0.5:                 # the counts the operands already have
+        cfg["llay"] = list(rng.choice([x for x in layouts[len(case["L"])] if len(x) == n]))
+        cfg["rlay"] = list(rng.choice([x for x in layouts[len(case["R"])] if len(x) == n]))
+    return cfg
+
+
 def concat_config(rng, layouts, case):
     lays, divs = [], []
     known_all = rng.random() < 0.6
@@ -427,7 +474,8 @@ def make_record(item):
     if fam == "merge":
         obs, strat = run_merge(case, how, cfg)
         rec = {"id": rid, "op": "merge", "how": how, "mode": case["mode"], "naming": cfg["naming"], "ind": cfg["ind"],
-               "L": case["L"], "R": case["R"], "lknown": bool(cfg["ldivs"]), "rknown": bool(cfg["rdivs"])}
+               "L": case["L"], "R": case["R"], "lknown": bool(cfg["ldivs"]), "rknown": bool(cfg["rdivs"]),
+               "lpre": case.get("lpre") or NO_PRE, "rpre": case.get("rpre") or NO_PRE}
     elif fam == "concat":
         obs, strat = run_concat(case, cfg)
         rec = {"id": rid, "op": "concat", "frames": case["frames"], "join": case["join"],
@@ -467,7 +515,7 @@ def guard_record(fam, case, how, cfg, rid):
     obs = {"raised": "", "nparts": 1, "ndivs": 2, "divs": [], "parts": [rows], "wholeok": True}
     if fam == "merge":
         rec = {"id": rid, "op": "merge", "how": how, "mode": case["mode"], "naming": cfg2["naming"], "ind": cfg2["ind"],
-               "L": case["L"], "R": case["R"], "lknown": True, "rknown": True}
+               "L": case["L"], "R": case["R"], "lknown": True, "rknown": True, "lpre": NO_PRE, "rpre": NO_PRE}
     elif fam == "concat":
         rec = {"id": rid, "op": "concat", "frames": case["frames"], "join": case["join"], "fdivs": [[] for _ in case["frames"]], "interleave": False}
     elif fam == "concat1":
@@ -497,6 +545,15 @@ def _work(item):
 
 
 # ----------------------------------------------------------------------------- classification
+def has_pre(case):
+    return (case.get("lpre") or NO_PRE)["how"] != "none" or (case.get("rpre") or NO_PRE)["how"] != "none"
+
+
+def pre_tag(case, side):
+    pre = case.get(side) or NO_PRE
+    return "none" if pre["how"] == "none" else "%s:%s" % (pre["how"], pre_relation(pre, KEYCOLS.get(case["mode"], [])))
+
+
 def classify(fam, case, how, cfg, strategy, clauses, obs):
     """Input class / call site of a violation: operation, key mode, join type, the lowering that ran (hash-tasks / hash-disk /
     broadcast / aligned / blockwise; stacked / interleaved; asof-cc / asof-ii) and which promise is broken."""
@@ -505,7 +562,7 @@ def classify(fam, case, how, cfg, strategy, clauses, obs):
     if fam == "merge":
         # input classes behind recorded findings: the first that applies names the violation
         if strategy == "broadcast":
-            if case["mode"] != "cc" and how != "inner" and "Raised" in clauses:
+            if case["mode"] not in ("cc", "kk") and how != "inner" and "Raised" in clauses:
                 return "merge:broadcast+index-key:%s" % group
             if case["mode"] in ("ic", "ci") and group == "truthful":
                 return "merge:broadcast+index-with-column:truthful"
@@ -513,6 +570,9 @@ def classify(fam, case, how, cfg, strategy, clauses, obs):
                 return "merge:broadcast+npartitions:%s" % group                 # any key mode, any join type
             if how == "leftsemi" and len(cfg["llay"]) < len(cfg["rlay"]):
                 return "merge:leftsemi:broadcast-left:%s" % group               # the LEFT operand is the one being broadcast
+        if has_pre(case):
+            # pre-partitioned operands: how the earlier stage's columns relate to the join keys is the input class
+            return "merge:%s:%s:pre[%s,%s]:%s:%s" % (case["mode"], how, pre_tag(case, "lpre"), pre_tag(case, "rpre"), strategy, group)
         return "merge:%s:%s:%s:%s" % (case["mode"], how, strategy, group)
     if fam == "concat":
         return "concat:axis0:%s:%s:%s" % (case["join"], strategy, group)
@@ -545,16 +605,25 @@ def random_items(rng, n):
     for i in range(n):
         fam = rng.choice(["merge"] * 6 + ["concat", "concat", "asof", "asof"])
         if fam == "merge":
-            mode = rng.choice(["cc", "cc", "ii", "ii", "ic", "ci"])
+            mode = rng.choice(["cc", "cc", "kk", "kk", "ii", "ii", "ic", "ci"])
             nk = rng.randint(2, 5)
             keys = lambda m, srt: (sorted if srt else list)([rng.choice(list(range(nk)) + ([NA] if not srt and rng.random() < 0.5 else [])) for _ in range(m)])  # noqa: E731
             srt = mode == "ii" and rng.random() < 0.6
             lk, rk = keys(rng.randint(0, 9), srt), keys(rng.randint(0, 9), srt)
-            mk = lambda ks, oni: [{"rid": j + 1, "idx": (k if oni else j), "k": (0 if oni else k)} for j, k in enumerate(ks)]  # noqa: E731
+            mk = lambda ks, oni: [{"rid": j + 1, "idx": (k if oni else j), "k": (0 if oni else k), "k2": rng.randint(0, 1)} for j, k in enumerate(ks)]  # noqa: E731
             case = {"fam": "merge", "mode": mode, "L": mk(lk, mode in ("ii", "ic")), "R": mk(rk, mode in ("ii", "ci"))}
             how = rng.choice(HOWS[mode])
-            cfg = merge_config(rng, lays, case, how, {"cc": ["on", "lr"], "ii": ["on"]}.get(mode, ["none"]))
-            cfg["npart"] = rng.choice([None, None, 1, 2, 3, 5, 6])
+            namings = {"cc": ["on", "lr"], "kk": ["on", "lr"], "ii": ["on"]}.get(mode, ["none"])
+            if mode in ("cc", "kk") and len(lk) >= 2 and len(rk) >= 2 and rng.random() < 0.5:
+                # pre-partitioned operands (stages that need no precondition on the rows)
+                ons = [["k"], ["k2"], ["k", "k2"], ["k", "v"], ["k", "k2", "v"], ["v"]]
+                pick = lambda: {"how": rng.choice(["shuffle", "shuffle", "merge"]), "on": rng.choice(ons)}     # noqa: E731
+                case["lpre"], case["rpre"] = pick(), rng.choice([NO_PRE, pick(), pick()])
+                lay5 = {m: [x for x in (weak_comp(rng, m, rng.randint(2, 4)) for _ in range(12))] for m in (len(lk), len(rk))}
+                cfg = pre_merge_config(rng, lay5, case, how, namings)
+            else:
+                cfg = merge_config(rng, lays, case, how, namings)
+                cfg["npart"] = rng.choice([None, None, 1, 2, 3, 5, 6])
         elif fam == "concat":
             frames = []
             for _ in range(rng.randint(2, 4)):
@@ -596,13 +665,14 @@ def asof_config(rng, layouts, case):
 # ----------------------------------------------------------------------------- TLC
 def bounds(ctx):
     q = ctx.quick
-    return {"Keys": {0, 1, 2}, "MaxL": 4 if q else 5, "MaxR": 4 if q else 5, "Full": 4 if q else 5, "Mod": 224 if q else 200,
+    return {"Keys": {0, 1, 2}, "MaxL": 4 if q else 5, "MaxR": 4 if q else 5, "Full": 4 if q else 5, "Mod": 280 if q else 200,
+            "PMod": 270 if q else 60, "PreMod": 97 if q else 47,
             "Salt": ctx.rng.randrange(1000), "HeavyMod": 90 if q else 40, "MaxParts": 3,
             "CFrames": 3, "CRows": 2, "CLabels": {0, 1, 2}, "CMod": 6 if q else 1,
             "AMaxL": 3, "AMaxR": 3 if q else 4, "AKeys": {0, 1, 2} if q else {0, 1, 2, 3}, "AMod": 80 if q else 6}
 
 
-INVARIANTS = ["PairsSane", "HashDecomposes", "BroadcastDecomposes", "SeqIsRows", "MaskSane", "ConcatSane", "ChainTruthful",
+INVARIANTS = ["PairsSane", "HashDecomposes", "BroadcastDecomposes", "SeqIsRows", "MaskSane", "PreSane", "ConcatSane", "ChainTruthful",
               "Concat1Sane", "AsofSane"]
 
 
@@ -643,6 +713,8 @@ def plan_items(ctx, cases, quota, per_case_hows):
             srt = c["c"]["mode"] == "ii" and all(r["idx"] != NA for r in c["c"]["L"] + c["c"]["R"]) and all(
                 a["idx"] <= b["idx"] for rows in (c["c"]["L"], c["c"]["R"]) for a, b in zip(rows, rows[1:]))
             fam = "merge:" + c["c"]["mode"] + (":sorted" if srt else "")
+            if has_pre(c["c"]):
+                fam = "merge:pre"
         byfam.setdefault(fam, []).append(c)
     items = []
     for fam in sorted(byfam):
@@ -655,8 +727,9 @@ def plan_items(ctx, cases, quota, per_case_hows):
             case, exp = c["c"], c["e"]
             if case["fam"] == "merge":
                 hows = HOWS[case["mode"]]
+                config = pre_merge_config if has_pre(case) else merge_config
                 for how in (hows if per_case_hows == "all" else rng.sample(hows, per_case_hows)):
-                    items.append(("m%d" % len(items), "merge", case, how, merge_config(rng, layouts, case, how, exp["mask"]), exp))
+                    items.append(("m%d" % len(items), "merge", case, how, config(rng, layouts, case, how, exp["mask"]), exp))
             elif case["fam"] == "concat":
                 items.append(("c%d" % len(items), "concat", case, "", concat_config(rng, layouts, case), exp))
             elif case["fam"] == "concat1":
@@ -755,12 +828,13 @@ def _tick(ctx, what):
 def run(ctx):
     setup_dask(ctx)
     consts = bounds(ctx)
-    cases = enumerate_cases(ctx, consts, ["merge", "concat", "concat1", "asof", "layouts"], "design+cases")
+    cases = enumerate_cases(ctx, consts, ["merge", "premerge", "concat", "concat1", "asof", "layouts"], "design+cases")
     ctx.extra["cases_enumerated_by_tlc"] = len(cases)
     q = ctx.quick
     dev = float(__import__("os").environ.get("VERIF_C39_DEV", "1"))        # development only: shrink the dask side
-    quota = {"merge:cc": 700 if q else 2500, "merge:ii": 300 if q else 1000, "merge:ii:sorted": 500 if q else 1500,
-             "merge:ic": 250 if q else 900, "merge:ci": 250 if q else 900,
+    quota = {"merge:cc": 550 if q else 2200, "merge:kk": 300 if q else 1200, "merge:pre": 500 if q else 2500,
+             "merge:ii": 250 if q else 1000, "merge:ii:sorted": 400 if q else 1500,
+             "merge:ic": 200 if q else 900, "merge:ci": 200 if q else 900,
              "concat": 300 if q else 3000, "concat1": 100 if q else 900, "asof": 300 if q else 3000}
     quota = {k: max(20, int(v * dev)) for k, v in quota.items()}
     items = plan_items(ctx, cases, quota, 1 if q else "all")
@@ -777,6 +851,16 @@ def run(ctx):
         ctx.count((it[1], it[2], it[3], it[4]), nontrivial(it, res["rec"]))
         strategies[res["strategy"]] = strategies.get(res["strategy"], 0) + 1
     ctx.extra["lowerings_exercised"] = strategies
+    rel = {}
+    for it, res in done:
+        if it[1] == "merge" and has_pre(it[2]):
+            for side in ("lpre", "rpre"):
+                t = pre_tag(it[2], side)
+                rel[t] = rel.get(t, 0) + 1
+    ctx.extra["pre_partitioned_operands_replayed"] = rel
+    missing = [r for r in ("equal", "subset", "superset", "overlap", "disjoint") if not any(t.endswith(":" + r) for t in rel)]
+    if missing:
+        raise MachineryError("vacuous: no pre-partitioned operand whose columns are %s to the join keys was replayed" % missing)
     report(ctx, bad)
     for fam in ("merge", "concat", "asof"):
         ex = next(((it, res) for it, res in done if it[1] == fam and nontrivial(it, res["rec"])), None)
@@ -786,7 +870,8 @@ def run(ctx):
     ctx.exhaustive = False
     ctx.rule = ("cases = TLC-enumerated (operands, key mode, join type | concat | asof arguments) - a seeded sample per family, every "
                 "sorted index-index pair preferred - each crossed with one seeded configuration (partitionings incl. empty parts, known/"
-                "unknown divisions, broadcast, shuffle_method, npartitions, suffixes, indicator, spelling), plus seeded larger frames; "
+                "unknown divisions, broadcast, shuffle_method, npartitions, suffixes, indicator, spelling; operands fresh or PRE-PARTITIONED by an "
+                "earlier shuffle / hash join / groupby(split_out) / set_index on columns in every relation to the join keys), plus seeded larger frames; "
                 "non-trivial = the operation returned rows in more than one partition; distinct by (case, join type, configuration)")
     ctx.assumptions = ["TLC evaluates the reference semantics correctly", "parts_collection builds exactly the given partitions",
                        "pandas per-partition kernels are correct", "the pyarrow shim is inert for pandas-backed frames"]
